@@ -20,6 +20,7 @@ def rd(ctx, N, M=16, B=4, K=1, qN=None, tiers=("quick", "thorough"), labels=None
          "tiers": list(tiers), "labels": labels, "covers": list(covers)}
     r["params"]["S"] = 0
     r["params"]["B2"] = 1
+    r["params"]["SPLITBACK"] = 3
     if tN is not None:
         r["thorough"] = {"N": tN}
     if extra:
